@@ -144,11 +144,7 @@ func getValuesByName(identName string, data any) (out any, err error) {
 				return nil, ErrKeyNotFound
 			}
 
-			fev := v.Index(0)
-			switch fev.Kind() {
-			case reflect.Pointer, reflect.Interface:
-				fev = fev.Elem()
-			}
+			fev := indirect(v.Index(0))
 
 			if k := fev.Kind(); !(k == reflect.Struct || k == reflect.Map) {
 				return nil, ErrKeyNotFound
@@ -168,6 +164,15 @@ func getValuesByName(identName string, data any) (out any, err error) {
 	}
 
 	return nil, ErrKeyNotFound
+}
+
+// indirect follows pointers and interfaces (an element of a []any that holds a pointer is both) until it
+// reaches a value of another kind or a nil
+func indirect(v reflect.Value) reflect.Value {
+	for (v.Kind() == reflect.Pointer || v.Kind() == reflect.Interface) && !v.IsNil() {
+		v = v.Elem()
+	}
+	return v
 }
 
 func getAsStructOrSlice(data any) (out any, ok, wasStruct bool) {
@@ -212,10 +217,7 @@ func getFieldValueByNameFromStruct(identName string, structValue reflect.Value) 
 		return nil, false
 	}
 
-	switch structValue.Kind() {
-	case reflect.Pointer, reflect.Interface:
-		structValue = structValue.Elem()
-	}
+	structValue = indirect(structValue)
 
 	svk := structValue.Kind()
 
